@@ -434,13 +434,16 @@ fn run_payout_case(case: &PayoutCase) -> (Vec<(String, String)>, usize, usize, u
     let built = block_on(build_history(&case.hist));
     // only blocks a node accepts on its longest chain
     let mut d = Deliverer::new(Node::new(case.hist.ncfg, 6), 10_000);
+    let table = BlockTable::from_blocks(&built.blocks);
     for b in &built.blocks {
+        if is_rootless(&d.node, &table, b) {
+            continue; // branch whose fork point has been purged: add_block's out-of-order branch (finding F10)
+        }
         d.deliver(b);
         if d.dead {
             break;
         }
     }
-    let table = BlockTable::from_blocks(&built.blocks);
     let path: Vec<Block> = match table.path(&d.node.tip().1) {
         Some(p) => p.into_iter().cloned().collect(),
         None => vec![],
